@@ -336,12 +336,14 @@ func loadView(ctx context.Context, scope *ReferenceScope, tableExpr parser.Query
 			subquery := t.Object.(parser.Subquery)
 			var hfields Header
 			resultSetList := make([]RecordSet, view.RecordLen())
+			fieldLenList := make([]int, view.RecordLen())
 
 			if err := EvaluateSequentially(ctx, scope, view, func(seqScope *ReferenceScope, rIdx int) error {
 				appliedView, err := Select(ctx, seqScope, subquery.Query)
 				if err != nil {
 					return err
 				}
+				fieldLenList[rIdx] = appliedView.FieldLen()
 
 				if 0 < len(joinTableName.Literal) {
 					if err = appliedView.Header.Update(joinTableName.Literal, nil); err != nil {
@@ -363,6 +365,14 @@ func loadView(ctx context.Context, scope *ReferenceScope, tableExpr parser.Query
 				return nil
 			}); err != nil {
 				return nil, err
+			}
+
+			// The subquery may read data that depends on the outer record (inline tables): every result is combined
+			// under the header of the first one, so all of them must have the same number of fields.
+			for i := range fieldLenList {
+				if fieldLenList[i] != fieldLenList[0] {
+					return nil, NewCombinedSetFieldLengthError(subquery.Query.SelectEntity, fieldLenList[0])
+				}
 			}
 
 			resultSet := make(RecordSet, 0, view.RecordLen())
